@@ -6,11 +6,12 @@ histories of the real loop).
 import TboxModel.C01.Model
 namespace Tbox.C01
 
-/-- the thread that most recently entered runLoop or the destructor -/
+/-- the thread that most recently entered runLoop, the destructor or cleanup() -/
 def lastDriver : List Ev → Option Nat
   | [] => none
   | .start t :: _ => some t
   | .destroy t :: _ => some t
+  | .cleanup t :: _ => some t
   | _ :: r => lastDriver r
 
 /-- every execution event is made by the thread that is driving the loop at that moment -/
